@@ -192,11 +192,18 @@ where
         let mut first = true;
 
         for elem in self.iter() {
+            let malformed = elem.is_err();
+
             if first {
                 first = false;
                 write!(f, "{elem:?}")?;
             } else {
                 write!(f, ", {elem:?}")?;
+            }
+
+            if malformed {
+                // Stop at the first error: what follows a malformed element cannot be located
+                break;
             }
         }
 
@@ -215,11 +222,18 @@ where
         let mut first = true;
 
         for elem in self.iter() {
+            let malformed = elem.is_err();
+
             if first {
                 first = false;
                 defmt::write!(f, "{:?}", elem);
             } else {
                 defmt::write!(f, ", {:?}", elem);
+            }
+
+            if malformed {
+                // Stop at the first error: what follows a malformed element cannot be located
+                break;
             }
         }
 
